@@ -434,6 +434,15 @@ func NewDecoder(n int, sep string, r io.Reader) (sts.PayloadDecoder, error) {
 			part.Prev = filepath.Join(strings.Split(part.Prev, sep)...)
 		}
 	}
+	// The names are joined onto the stage and final directories: refuse any
+	// that would lead out of them
+	for _, part := range binReader.meta {
+		if !filepath.IsLocal(part.Name) ||
+			(part.Renamed != "" && !filepath.IsLocal(part.Renamed)) {
+			return nil, fmt.Errorf(
+				"invalid file name in payload: %s (%s)", part.Name, part.Renamed)
+		}
+	}
 	return binReader, err
 }
 
